@@ -76,6 +76,24 @@ PROPS["C20"] = dict(
                  "statistics worker timing and the HTML/prometheus rendering are runtime"],
 )
 
+PROPS["C11"] = dict(
+    suites=[dict(name="access-list-files", harness="access-list", imports=["AccessListFile"],
+                 case_type="bool * list (acl_mode * option string * bool * list (N * bool * bool * bool))",
+                 check="acl_code", monitor=None, count_quick=400, count_thorough=20000, nontrivial_bits=3, shrink=False),
+            udp_suite("udp-swarm-acl", 0b01011, monitor="mon_c01", count_quick=240),
+            http_suite("http-swarm-acl", 0b01011, monitor="mon_c07", count_quick=240)],
+    rule="access-list-files: sequences of 1..5 reloads through the real update_access_list (modes allow/deny/off) from generated files - "
+         "empty, upper/lower/mixed-case hex, blank and white-space-only lines, leading/trailing blanks/tabs/VT/FF/CR, CRLF, missing final "
+         "newline, a bad line (39/41/42 digits, non-hex, inner blank, non-ASCII, invalid UTF-8) at a random position, missing file, "
+         "good-after-bad and bad-after-good - each followed by allows() queries for 4 hashes under all three modes; swarm suites: the "
+         "C01/C07 histories, 40% of which clean under allow/deny lists that change between passes; non-trivial = the sequence contains a "
+         "failed reload (files) / inline->heap->inline (histories)",
+    modelled="access_list.rs (parse, reload, allows) in AccessListFile.v/AccessList.v; the storages' clean in UdpSwarm.v/HttpSwarm.v/WsSwarm.v; "
+             "the announce gates in the handler models (UdpHandler.v, HttpConn.v, WsRouting.v)",
+    assumptions=["Rust's str::trim also strips non-ASCII white space and lines() fails on invalid UTF-8: the model treats any byte >= 0x80 as a failed reload",
+                 "the per-worker arc_swap::Cache and SIGUSR1 delivery are runtime"],
+)
+
 LEVELS = {
     "C01": dict(
         text="Refinement theorem (Coq, induction over all finite histories, all offsets, any inline capacity): the sequential model of "
@@ -114,6 +132,14 @@ LEVELS["C20"] = dict(
     design_ref="DESIGN.md §7 C20", technique="Coq theorems (induction, crash-prefix quantification) + in-Coq correspondence incl. crash injection",
     note="Trusted: Coq kernel, models, harness, probes H4. Partial: no fsync; statistics thread timing; global (whole-tracker) tally sum "
          "is stated per torrent.")
+
+LEVELS["C11"] = dict(
+    text="Theorems: mode semantics; a failed reload (unreadable file or a bad line at ANY position) keeps the previous list, a reload is "
+         "all-or-nothing; 40 hex digits in any case mixture parse back exactly, other lengths are rejected, surrounding white space and "
+         "blank lines are ignored; after a reload the next cleaning pass drops exactly the forbidden torrents and leaves permitted unexpired "
+         "entries untouched (udp, http, ws); tied to the code through the real update_access_list on generated files and the storages' clean.",
+    design_ref="DESIGN.md §7 C11", technique="Coq theorems over the file grammar and the clean step + in-Coq correspondence",
+    note="Trusted: Coq kernel, models, harness. Partial: Unicode white space / UTF-8 validation of std, arc_swap cache, signal delivery.")
 
 NOT_APPLICABLE = [
     dict(property_id=p, reason="check not built yet in this round (work in progress; planned per DESIGN.md §10)")
